@@ -96,10 +96,13 @@ class Box:
         return all(not (p[a] > self.box[a] / 2.) and not (p[a] < -self.box[a] / 2.) for a in range(3))
 
     def rootbox(self, p):
-        """reb_get_rootbox_for_particle (C int arithmetic: % truncates)."""
+        """reb_get_rootbox_for_particle (C int arithmetic: % truncates; clamp of the upper border since /repo da62396)."""
         ijk = []
         for a in range(3):
-            f = int(math.floor((p[a] + self.box[a] / 2.) / self.rs)) + self.n[a]
+            f = int(math.floor((p[a] + self.box[a] / 2.) / self.rs))
+            if f == self.n[a]:            # /repo da62396: the upper box border belongs to the last root box
+                f = self.n[a] - 1
+            f += self.n[a]
             ijk.append(int(math.fmod(f, self.n[a])))
         return (ijk[2] * self.n[1] + ijk[1]) * self.n[0] + ijk[0]
 
@@ -107,7 +110,10 @@ class Box:
         """geometry of a NEW root cell as computed in reb_tree_add_particle_to_cell (no +N_root before %)."""
         c = []
         for a in range(3):
-            i = int(math.fmod(int(math.floor((p[a] + self.box[a] / 2.) / self.rs)), self.n[a]))
+            f = int(math.floor((p[a] + self.box[a] / 2.) / self.rs))
+            if f == self.n[a]:
+                f = self.n[a] - 1
+            i = int(math.fmod(f, self.n[a]))
             c.append(-self.box[a] / 2. + self.rs * (0.5 + float(i)))
         return tuple(c)
 
